@@ -4,13 +4,16 @@
 package world
 
 import (
+	"database/sql"
 	"fmt"
 	"io"
 	"net/http"
 	"net/url"
 	"os"
 	"path/filepath"
+	"reflect"
 	"strings"
+	"unsafe"
 
 	"Havoc/cmd/server"
 	"Havoc/pkg/events"
@@ -141,9 +144,15 @@ type World struct {
 	Demons    []*Demon
 	peerSeq   int
 
+	RouteProblems []RouteProblem
+	Inbox         map[*Demon][]Task // tasks that reached a pivot agent through its parents
+
 	// problems recorded by earlier (crashed) simulations of this world
 	PastProblems []simrt.Problem
 	BootErr      string
+	BootKillStep uint64 // kill the process at this scheduler step of the next boot (0 = never)
+	BootKilled   bool
+	oldDBs       []any
 }
 
 var html404 []byte
@@ -220,7 +229,17 @@ func (w *World) Boot() error {
 		return fmt.Errorf("boot: %v", bootPanic)
 	}
 	w.Main = sim.Spawn("ts-main", simrt.KindGo, "main", func() { w.TS.Start() })
-	sim.Settle()
+	if w.BootKillStep > 0 {
+		// the process is killed while it starts up (restore in progress)
+		kill := w.BootKillStep
+		w.BootKillStep = 0
+		if sim.Run(func() bool { return sim.Step >= kill }, true) == simrt.Stopped {
+			w.BootKilled = true
+			return nil
+		}
+	} else {
+		sim.Settle()
+	}
 	if w.Main.State == simrt.Done {
 		w.BootErr = "Teamserver.Start returned"
 		return fmt.Errorf("boot: Start() returned (panic=%v)", w.Main.Panic)
@@ -246,6 +265,7 @@ func (w *World) Crash() error {
 	}
 	w.PastProblems = append(w.PastProblems, w.Sim.Problems...)
 	w.Sim.Close()
+	w.closeDB()
 	os.RemoveAll(filepath.Join(w.Dir, "data"))
 	if err := os.Rename(filepath.Join(snap, "data"), filepath.Join(w.Dir, "data")); err != nil {
 		return err
@@ -259,6 +279,22 @@ func (w *World) Close() {
 	if w.Sim != nil {
 		w.Sim.Close()
 	}
+	w.closeDB()
+}
+
+// closeDB closes the SQLite handles of a dead process image (harness plumbing: the handle is
+// unexported, and a killed process has its descriptors closed by the kernel).
+func (w *World) closeDB() {
+	defer func() { recover() }()
+	if w.TS == nil || w.TS.DB == nil {
+		return
+	}
+	v := reflect.ValueOf(w.TS.DB).Elem().FieldByName("db")
+	if v.IsValid() && !v.IsNil() {
+		db := (*sql.DB)(unsafe.Pointer(v.Pointer()))
+		db.Close()
+	}
+	w.TS.DB = nil
 }
 
 func copyTree(src, dst string) error {
